@@ -328,7 +328,7 @@ U_FCOMMON = 'lib/upipe-framers/upipe_framers_common.c'
 
 def check_find(rep, prog, tier):
     rep.rule('R-find', 'upipe_h264f_find / upipe_h265f_find (with upipe_framers_mpeg_scan) interpreted on a ghost buffer holding a concrete Annex B stream '
-             '(3- and 4-octet start codes, at the very beginning, back to back, at the very end) cut into every segmentation of at most 3 segments (= how '
+             '(3- and 4-octet start codes, at the very beginning, back to back, at the very end) cut into every segmentation of at most 3 segments (thorough tier: 4 segments, two more streams with long zero runs and near-miss patterns) (= how '
              'the input bytes were split into buffers): successive calls report every start code once, in order, with the octet that follows it, the '
              'position just after the NAL header, and the octet that precedes the start code (0xff when there is none) - the same for every segmentation; '
              'no octet is read outside a mapped window')
@@ -337,6 +337,9 @@ def check_find(rep, prog, tier):
         'three-first': [0, 0, 1, 0x09, 0x10, 0, 0, 1, 0x67, 1, 2, 3, 4, 5, 6, 0, 0, 0, 1, 0x68, 9, 9],
         'back-to-back': [9, 0, 0, 1, 0x0c, 0x11, 0, 0, 1, 0x0c, 0x12, 0, 0, 0, 1, 0x65, 1, 2, 3, 0, 0, 1],
     }
+    if tier != 'quick':
+        streams['zeros-before'] = [7, 0, 0, 0, 0, 0, 1, 0x67, 1, 0, 0, 0, 0, 1, 0x68, 0, 0, 2, 0, 0, 1, 0x65, 9]
+        streams['near-miss'] = [0, 0, 2, 0, 1, 0, 0, 3, 0, 0, 1, 0x41, 0, 1, 0, 0, 1, 0x01, 0x02]
     nruns = 0
     for uname, fname, rec, hdr in ((U_H264, 'upipe_h264f_find', 'upipe_h264f', 1), (U_H265, 'upipe_h265f_find', 'upipe_h265f', 2)):
         u = prog.units.get(uname)
@@ -362,6 +365,9 @@ def check_find(rep, prog, tier):
             segl = [[N]] + [[a, N - a] for a in range(1, N)]
             if tier != 'quick' or hdr == 1:
                 segl += [[a, b - a, N - b] for a in range(1, N) for b in range(a + 1, N) if tier != 'quick' or (b - a) <= 4]
+            if tier != 'quick':
+                # thorough: every cutting into four buffers as well
+                segl += [[a, b - a, c - b, N - c] for a in range(1, N) for b in range(a + 1, N) for c in range(b + 1, N)]
             for segs in segl:
                 nruns += 1
                 inst = '%s:%s,segs=%s' % (fname, sname, '+'.join(map(str, segs)))
